@@ -8,6 +8,7 @@ from __future__ import annotations
 import json
 
 from vlib import core, jsspenc as je
+from vlib import translate
 from props import c01
 from props.c15 import load_corpus
 
@@ -26,6 +27,7 @@ def gen_case(rng):
 
 
 def run(ctx):
+    translate.check_link(ctx, "C15")  # regenerate Gallina from /repo's current encoder source; link lemmas coq/link/C15Link.v
     ctx.rule = ("corpus first; generator of C01 with share = 0 (pure makespan objective), 1-10 qubits, ALL 2^n basis states; optimum from an exhaustive "
                 "enumeration of start times that does not use the encoder's windows; distinct = distinct (instance, limit, penalties); "
                 "non-trivial = at least 2 qubits and penalties in the regime")
@@ -48,6 +50,8 @@ def run(ctx):
 
 
 def replay(ctx, payload):
+    if translate.is_link_replay(payload) and not payload.get("failing_input"):
+        return translate.replay(ctx, payload, "C15")  # a replay file written for a broken translation tie
     c = payload.get("case") or payload.get("failing_input")
     batch = je.Batch()
     je.examiner(c)(ctx, batch, c, WANT, ctx.rng)
